@@ -110,10 +110,21 @@ def h2(cx):
     return res
 
 
+def _handle_fields(cx):
+    """(flag field, value field) of scheduler::HandleInfo by type: the bool and the Option"""
+    F = cx.facts
+    if cx.control:
+        return 'keep_running', 'value'
+    flag = roles.field_where(cx, 'scheduler::HandleInfo', lambda t, ti: t['s'] == 'bool', 'keep-running flag')
+    val = roles.field_where(cx, 'scheduler::HandleInfo', lambda t, ti: roles.is_option_of(F, t), 'task result')
+    return flag, val
+
+
 def h3(cx):
     F = cx.facts
     res = []
     n = 0
+    FLAG, VALUE = _handle_fields(cx)
     for im in F.impls_of('futures::Future'):
         tag = roles.impl_tag(cx, im)
         if tag != 'scheduler::Remote' and not (cx.control and tag == 'verif_controls::UnlockedRemote'):
@@ -124,11 +135,11 @@ def h3(cx):
         label = cx.label(fn)
         held = lock_scopes(g)
         polls = [x for x in g.nodes if x['kind'] == 'call' and x['name'] == 'futures::Future::poll']
-        reads = [x for x in g.nodes if x['kind'] == 'switch' and access_path(x['discr'])[1][-1:] == ['keep_running']]
+        reads = [x for x in g.nodes if x['kind'] == 'switch' and access_path(x['discr'])[1][-1:] == [FLAG]]
         ok = bool(polls) and bool(reads)
         msg = 'keep_running is read and the task polled under one guard of the handle cell'
         for x in polls:
-            hs = [h for h in held[x['id']] if h[1].endswith('handle_info') and h[2] == 'W']
+            hs = [h for h in held[x['id']] if h[2] == 'W']
             if not hs:
                 ok = False
                 msg = 'the task is polled without holding the handle cell: unsubscribe() can return while the task body is still running'
@@ -163,7 +174,7 @@ def h3(cx):
         fn = F.impl_fn(im, 'unsubscribe')
         g = cx.graph(fn['key'])
         m += 1
-        ws = [x for x in g.nodes if x['kind'] == 'assign' and access_path(x['lhs'])[1][-1:] == ['keep_running']]
+        ws = [x for x in g.nodes if x['kind'] == 'assign' and access_path(x['lhs'])[1][-1:] == [FLAG]]
         ok = bool(ws) and all(const_bool(x['rhs']) is False and '@' in access_path(x['lhs'])[1] and access_path(x['lhs'])[1][0] == '0' for x in ws)
         from ..core import lang_check
         must = lang_check(g, 'clear', lambda x: ('clear',) if x in ws else None, exact=True, empty_ok=False)
@@ -178,6 +189,7 @@ def h5(cx):
     F = cx.facts
     res = []
     writers = []
+    FLAG, VALUE = _handle_fields(cx)
     for fn in F.fns.values():
         if not fn['key'].startswith(F.crate + '::scheduler'):
             continue
@@ -186,7 +198,7 @@ def h5(cx):
             if x['kind'] == 'assign':
                 root, steps = access_path(x['lhs'])
                 r = strip(x['rhs'])
-                if steps[-1:] == ['value'] and '@' in steps and r[0] == 'agg' and r[2].endswith('Option::Some'):
+                if steps[-1:] == [VALUE] and '@' in steps and r[0] == 'agg' and r[2].endswith('Option::Some'):
                     writers.append((fn, g, x))
     labels = sorted({cx.label(f) for f, g, x in writers})
     ok = labels == ['<scheduler::Remote<Fut> as Future>::poll']
@@ -202,7 +214,7 @@ def h5(cx):
         g = cx.graph(fn['key'])
         label = cx.label(fn)
         if 'NormalReturn' in im['self_s']:
-            isome = [x for x in g.nodes if x['kind'] == 'call' and x['name'] == 'std::option::Option::is_some' and access_path(x['args'][0])[1][-1:] == ['value']]
+            isome = [x for x in g.nodes if x['kind'] == 'call' and x['name'] == 'std::option::Option::is_some' and access_path(x['args'][0])[1][-1:] == [VALUE]]
             res.append(Finding(ID, 'H5', label, len(isome) == 1, 'closed = value.is_some()' if isome else 'NormalReturn handle does not answer from value.is_some()', fn['span']))
         else:
             consts = [x for x in g.nodes if x['kind'] == 'assign' and not x['ctx'] and x['lhs'][0] == 'local' and x['lhs'][1] == 0 and const_bool(x['rhs']) is True]
